@@ -43,6 +43,7 @@ type lqAct struct {
 	Shape string          `json:"shape"`
 	Mut   *lqMut          `json:"mut"`
 	Kind  string          `json:"kind"`
+	Point string          `json:"point"` // Submit: commit point of submitBlock at which pre-execution Kind runs
 	Res   string          `json:"res"`
 	Raw   json.RawMessage `json:"-"`
 }
@@ -672,18 +673,24 @@ func (r *lqRun) observe(o *lqObs, all bool) {
 	cur, curHash := ls.GetCurrentBlock()
 	o.Cur = int(cur) - int(r.B)
 	o.CurId = r.idOfHash(curHash)
+	// a failing read is an observation (a damaged store), never a harness failure
+	rel := func(h uint32, err error) int {
+		if err != nil {
+			return -999
+		}
+		return int(h) - int(r.B)
+	}
 	_, bh, err := ls.blockStore.GetCurrentBlock()
-	vhMust(err)
-	o.BlkCur = int(bh) - int(r.B)
+	o.BlkCur = rel(bh, err)
 	_, sh, err := ls.stateStore.GetCurrentBlock()
-	vhMust(err)
-	o.StCur = int(sh) - int(r.B)
+	o.StCur = rel(sh, err)
 	_, eh, err := ls.eventStore.GetCurrentBlock()
-	vhMust(err)
-	o.EvCur = int(eh) - int(r.B)
-	root, err := ls.GetStateMerkleRoot(cur)
-	vhMust(err)
-	o.Root = vlShort(root)
+	o.EvCur = rel(eh, err)
+	if root, err := ls.GetStateMerkleRoot(cur); err != nil {
+		o.Root = "error: " + err.Error()
+	} else {
+		o.Root = vlShort(root)
+	}
 	o.Dump = lqDump(ls, r.dir)
 	o.HdrLast = int(ls.GetCurrentHeaderHeight()) - int(r.B)
 	lo := r.B
@@ -785,7 +792,26 @@ func (r *lqRun) step(a *lqAct, o *lqObs, all bool) {
 	case "Submit":
 		listing = lqList(ls)
 		d := r.buildCandidate(a.Shape, a.Mut)
+		if a.Point != "" {
+			// a non-atomic pre-execution runs while the block is being committed (build tag verif)
+			fired := false
+			if !lqSetHook(func(name string, height uint32) {
+				if name == a.Point && !fired {
+					fired = true
+					o.Pre = r.preExec(a.Kind)
+				}
+			}) {
+				panic("commit-point schedule requested but the harness was built without the verif tag")
+			}
+			defer func() {
+				lqSetHook(nil)
+				if !fired { // the block was not committed at all (observed through the result and the heights)
+					o.Pre = map[string]interface{}{"unreached": a.Point}
+				}
+			}()
+		}
 		res, reason, err := r.submit(a.Path, d, a.Mut)
+		lqSetHook(nil)
 		o.Res, o.Reason = res, reason
 		if err != nil {
 			o.Err = err.Error()
@@ -813,6 +839,17 @@ func (r *lqRun) step(a *lqAct, o *lqObs, all bool) {
 				}
 			}
 		}
+	case "SyncHeader":
+		// header sync runs ahead: the VALID header of a next block of this shape is handed to AddHeaders
+		listing = lqList(ls)
+		d := r.buildCandidate(a.Shape, lqMutOf(lqValidMut()))
+		hdr := vlCloneBlock(d.blk).Header
+		if err := ls.AddHeaders([]*types.Header{hdr}); err != nil {
+			o.Res, o.Err = "error", err.Error()
+		} else {
+			o.Res = "ok"
+			r.idOf[hdr.Hash()] = append(append([]string(nil), r.names...), a.Shape)
+		}
 	case "PreExec":
 		listing = lqList(ls)
 		o.Pre = r.preExec(a.Kind)
@@ -831,7 +868,7 @@ func (r *lqRun) step(a *lqAct, o *lqObs, all bool) {
 	}
 	r.observe(o, all)
 	o.Changed = lqChanged(before, o.Dump)
-	if len(o.Changed) > 0 && a.Name != "Restart" && o.Res != "ok" || (a.Name == "PreExec" && len(o.Changed) > 0) {
+	if len(o.Changed) > 0 && a.Name != "Restart" && o.Res != "ok" || ((a.Name == "PreExec" || a.Name == "SyncHeader") && len(o.Changed) > 0) {
 		after := lqList(r.ls)
 		o.Diff = map[string][]string{"block": vlDiffKeys(listing.block, after.block), "state": vlDiffKeys(listing.state, after.state),
 			"event": vlDiffKeys(listing.event, after.event)}
